@@ -5,12 +5,17 @@ behaviours replayed into a real ctfe.Instance; every STH is verified under the l
 root, every consistency / inclusion proof is verified with the harness' own RFC 9162 verifiers, served entries are
 compared byte for byte with the independent encoding of the submission, every pair of served STHs is linked by a
 served proof, and every certificate with an SCT is found by the client-computed leaf hash at a single index.
+
+Faults and schedules: the log signer is a device that can fail (the instance gets it through trillian's crypto/keys
+handler registry as a PKCS#11-configured key; harness/ctfeenv registers the handler), the backend can refuse a call or
+lose a reply, two front end instances with own clocks and own signed-head memory serve the log.  STHVerifies /
+SignedHeadCoherent / FailedRequestLeavesNothing: whatever failed before, every STH served afterwards verifies
+(CTFESignDefect.cfg shows TLC finds the stale-signature behaviour when the model remembers a head before signing it).
+Concurrent runs are recorded as Inv / Call / Ret events and validated by CTFETrace.tla (see ctfe_common).
 """
 import json
-import os
 
 from props import ctfe_common
-from vlib import Infra
 
 
 def run(ctx, replay=None):
@@ -27,28 +32,9 @@ def run(ctx, replay=None):
     # the repository's own client library and ctutil.LogInfo as the client side of the same behaviours
     ctx.go_test("cctfe", run="TestClientLoop$", env={"VERIF_BEHAVIOURS": path, "VERIF_LOOP_BEHAVIOURS": ctx.pick(300, 5000)},
                 timeout=3000, name="clientloop")
-    # concurrent clients under -race: backend call order = linearization order, validated by CTFETrace.tla
-    out, outdir, _ = ctx.go_test("cctfe", run="TestConcurrent$", race=True, timeout=3000, name="concurrent",
-                                 env={"VERIF_TRACES": ctx.pick(8, 80), "VERIF_ROUNDS": ctx.pick(6, 10)})
-    tr = os.path.join(outdir, "traces.ndjson")
-    if not os.path.exists(tr) or os.path.getsize(tr) == 0:
-        raise Infra("no concurrent trace recorded")
-    n = sum(1 for line in open(tr) if '"ev":"Reset"' in line)
-    r = ctx.tlc("ctfe", "CTFETrace", "CTFETrace.cfg", workers=1, env={"TRACE_FILE": tr}, count=False, check=False,
-                timeout=3000, label="trace")
-    stuck = r.records.get("STUCK", [])
-    if r.rc != 0 and not stuck and not r.violated:
-        raise Infra("trace validation failed to run (rc=%d)\n%s" % (r.rc, "\n".join(r.out.splitlines()[-25:])))
-    if stuck or r.violated:
-        lines = open(tr).read().splitlines()
-        at = stuck[0]["line"] if stuck else len(lines)
-        ev = stuck[0]["event"] if stuck else {}
-        ctx.violation("trace:%s:%s" % (ev.get("ev", r.violated), ev.get("status", "")),
-                      "a concurrent history of requests to the real instance is not a behaviour of CTFE.tla: the reply to "
-                      "%s does not follow from the state reached in backend order (or an invariant fails there)" % ev.get("ev", "?"),
-                      {"stuck": stuck, "violated": r.violated, "trace_window": lines[max(0, at - 25):at + 1]})
-    else:
-        ctx.traces += n
+    # concurrent clients of two front ends under -race, staged overlaps with failing backend calls: Inv / Call / Ret
+    # histories validated by CTFETrace.tla (backend call order = linearization order)
+    ctfe_common.concurrent_traces(ctx, "C06")
     # the certificate token of CTFE.tla opened: what the stored entry decodes to, per shape of submission
     ctfe_common.entry_shapes(ctx, "C06")
     # every entry stays served when issuance chains live outside the backend, across storage faults and cold caches
